@@ -212,7 +212,10 @@ class Gen:
 
     def decl(self, derive, body, pool, allow_raw=False, forced=None, nfields=None):
         rng = self.rng
-        d = {"id": self.n, "derive": derive, "body": body, "rname": "T%d%s" % (self.n, rng.choice(
+        # a third of the type names start with the spelling of a primitive IDL type in some case
+        prefix = rng.choice(["T", "T", "T", "T", "T", "T", "Int", "Interval", "String", "StringPair", "Object", "Objective",
+                             "Bool", "Boolean", "Float", "Floating", "INT", "STRING", "BOOLx", "OBJECT", "FLOATy"])
+        d = {"id": self.n, "derive": derive, "body": body, "rname": "%s%d%s" % (prefix, self.n, rng.choice(
             ["", "Rec", "Info", "Reply", "State", "Cfg2", "IPv6Addr"])), "users": []}
         self.n += 1
         inline = derive == "type"
@@ -604,9 +607,10 @@ def has_nested_option(j):
     return '{"opt": {"opt":' in json.dumps(j)
 
 
-def norm_iface(j, with_comments=True):
+def norm_iface(j, with_comments=True, inline_comments=True):
     """Interface JSON with comment texts stripped of leading/trailing blanks (the renderer writes
-    `# ` + text and the parser drops the blanks after `#`), or without comments at all."""
+    `# ` + text and the parser drops the blanks after `#`), or without comments at all, or without the
+    comments INSIDE inline types (which zlink's parser drops)."""
     def cm(cs):
         return [c.strip(" \t") for c in cs] if with_comments else []
 
@@ -617,9 +621,9 @@ def norm_iface(j, with_comments=True):
         if k in ("opt", "arr", "map"):
             return {k: ty(v)}
         if k == "enum":
-            return {k: [[n, cm(c)] for n, c in v]}
+            return {k: [[n, cm(c) if inline_comments else []] for n, c in v]}
         if k == "obj":
-            return {k: [[n, ty(x), cm(c)] for n, x, c in v]}
+            return {k: [[n, ty(x), cm(c) if inline_comments else []] for n, x, c in v]}
         return t
 
     def fl(fs):
@@ -775,7 +779,11 @@ def main():
             # comments everywhere except on enum variants.
             same_struct = r["parse_ok"] and norm_iface(r["orig"], False) == norm_iface(r["parsed"], False)
             good = r["parse_ok"] and r["eq"] and same_struct
-            if good:
+            # comments on the interface, on members and on their direct fields / parameters / variants must
+            # survive (modulo surrounding blanks); comments INSIDE inline types are dropped by zlink's
+            # parser (Known class of C16_interface_roundtrips) and are only counted
+            top_ok = r["parse_ok"] and norm_iface(r["orig"], True, False) == norm_iface(r["parsed"], True, False)
+            if good and top_ok:
                 n_rt_ok += 1
                 if norm_iface(r["orig"]) != norm_iface(r["parsed"]):
                     n_comment_loss += 1
@@ -788,7 +796,8 @@ def main():
                   "decls": [export_decl(x) for x in closure(byid, used)]}
             what = "interface assembled from derived descriptions does not render/parse back to an equal description: "
             what += ("parse error " + r.get("err", "")[:120]) if not r["parse_ok"] else (
-                "parsed != original" if not r["eq"] else "names, types or order differ after the round trip")
+                "parsed != original" if not r["eq"] else ("names, types or order differ after the round trip"
+                                                          if not same_struct else "a comment is lost or changed by the round trip"))
             if has_variant_comments(r["orig"]):
                 n_f8 += 1
                 ck.violation(what, rp, tag="if_" + it["id"], sig=SIG_F8)
